@@ -17,3 +17,5 @@ func stack() []byte {
 }
 
 func bitsSW(n int) *bits.FixedSliceWriter { return bits.NewFixedSliceWriter(n) }
+
+type bitsFSW = bits.FixedSliceWriter
